@@ -27,6 +27,7 @@ type c10Case struct {
 	Origin  string        `json:"origin,omitempty"` // well-formed | injected:<class> | mutated (for the evidence only)
 	Roots   int           `json:"roots,omitempty"`
 	Heading bool          `json:"heading,omitempty"`
+	IOKind  int           `json:"ioKind,omitempty"` // massive run: dynamic type of reader/writer (ops.Faults.IOKind)
 	Inodes  int           `json:"inodes,omitempty"` // mkdir: the target file system has room for Inodes-1 entries (ENOSPC beyond)
 	CbFail  int           `json:"cbFail,omitempty"` // walk: k>0 = the (k-1)-th callback (in call order) returns an error
 	CbErr   int           `json:"cbErr,omitempty"`  // which error value it returns (ops.CallbackErr)
@@ -64,6 +65,7 @@ func c10Make(c c10Case, massive bool) ops.Case {
 	}
 	if massive {
 		cs.Sched = c.Sched
+		cs.Faults.IOKind = c.IOKind
 	}
 	return cs
 }
@@ -500,6 +502,7 @@ func c10Gen() *rapid.Generator[c10Case] {
 			c.Pre = []ops.FSEntry{{Path: f[rapid.IntRange(0, len(f)-1).Draw(t, "which")].Name, Kind: "d"}}
 		}
 		c.Sched = genSched(t)
+		c.IOKind = rapid.SampledFrom([]int{0, 0, 0, 1, 3, 4, 5}).Draw(t, "ioKind")
 		if len(c.Doc) > 8192 && c.Sched.WriterYieldUs > 20 {
 			c.Sched.WriterYieldUs = 20 // thousands of writes: keep the case cheap
 		}
@@ -527,6 +530,9 @@ func c10Record(col *collector, c c10Case, mres *ops.Result) {
 	if c.Inodes > 0 {
 		cl = append(cl, "file-system-runs-full")
 	}
+	if c.IOKind != 0 {
+		cl = append(cl, fmt.Sprintf("reader-writer-kind:%d", c.IOKind))
+	}
 	if bytes.HasPrefix(c.Doc, []byte("\n")) || bytes.HasPrefix(c.Doc, []byte(" \n")) || bytes.HasPrefix(c.Doc, []byte("\r\n")) {
 		cl = append(cl, "leading-blank-line")
 	}
@@ -535,7 +541,7 @@ func c10Record(col *collector, c c10Case, mres *ops.Result) {
 		cl = append(cl, "hook:"+p)
 	}
 	nontrivial := c.Roots >= 3 || c.Origin != "well-formed"
-	col.eval(nontrivial, hash64(string(c.Doc), fmt.Sprint(c.Op, c.Branch, c.Exts, c.Strict, c.Pre, c.Sched, c.CbFail, c.CbErr, c.Inodes)), cl...)
+	col.eval(nontrivial, hash64(string(c.Doc), fmt.Sprint(c.Op, c.Branch, c.Exts, c.Strict, c.Pre, c.Sched, c.CbFail, c.CbErr, c.Inodes, c.IOKind)), cl...)
 	col.sample(func() any {
 		return map[string]any{"doc": truncate(string(c.Doc), 300), "op": c.Op, "origin": c.Origin, "sched": c.Sched}
 	})
